@@ -14,7 +14,8 @@
    the tag of the line whose text it holds.  The text of a decoded line is taken to be an arbitrary function of the line
    and of the context it was decoded from, so "same result" is "same context".
    The page content is part of the initial state: cfgid encodes CARRY_H_OVER and, per line, whether it is decoded (0),
-   confident under the threshold (1) or has no logits (2, only when NK = 3).
+   confident under the threshold (1), has no logits (2, only when NK >= 3) or is confident under the threshold but came without a
+   transcription (3, only when NK = 4: e.g. a page rebuilt from a logits file alone - the confident-line shortcut keeps "no text").
    Workers: every worker of parse_folder's Pool owns a forked copy of the parser, i.e. its own (last_h, last_line);
    pages are dispatched to workers arbitrarily.  Workers = {1} is the sequential tool.
 
@@ -24,7 +25,7 @@ EXTENDS Naturals, Sequences, FiniteSets, TLC
 
 CONSTANTS Pages,        \* subset of {"A", "B", "C"}
           NLines,       \* lines per page
-          NK,           \* number of line kinds in use (2 or 3)
+          NK,           \* number of line kinds in use (2, 3 or 4)
           Workers,      \* set of worker ids
           MaxCalls, Legacy
 
@@ -34,10 +35,10 @@ Pow(b, e) == IF e = 0 THEN 1 ELSE b * Pow(b, e - 1)
 NLinesTotal == Cardinality(Pages) * NLines
 NConfigs == 2 * Pow(NK, NLinesTotal)
 CarryOf(c) == c % 2 = 1
-KindOf(c, p, l) == ((c \div 2) \div Pow(NK, PageNo(p) * NLines + (l - 1))) % NK      \* 0 decode, 1 confident, 2 no logits
+KindOf(c, p, l) == ((c \div 2) \div Pow(NK, PageNo(p) * NLines + (l - 1))) % NK      \* 0 decode, 1 confident, 2 no logits, 3 confident without text
 
 ASSUME /\ Pages \subseteq {"A", "B", "C"} /\ {PageNo(p) : p \in Pages} = 0..(Cardinality(Pages) - 1)
-       /\ NK \in {2, 3} /\ NLines \in Nat \ {0} /\ MaxCalls \in Nat /\ Workers # {}
+       /\ NK \in {2, 3, 4} /\ NLines \in Nat \ {0} /\ MaxCalls \in Nat /\ Workers # {}
 
 NoH == [has |-> FALSE, c |-> <<>>]
 NoLine == <<>>
@@ -61,6 +62,12 @@ LineConfident == /\ cur # "-" /\ pos <= NLines /\ KindOf(cfgid, cur, pos) = 1
                  /\ lastLine' = [lastLine EXCEPT ![cw] = <<cur, pos>>]       \* keeps the OCR transcription
                  /\ pos' = pos + 1 /\ UNCHANGED <<cfgid, cur, cw, calls, log>>
 
+\* a confident line that carries no transcription: the shortcut returns "no text" and nothing is left to re-prime the LM from
+LineConfidentNoText == /\ cur # "-" /\ pos <= NLines /\ KindOf(cfgid, cur, pos) = 3
+                       /\ lastH' = [lastH EXCEPT ![cw] = NoH]
+                       /\ lastLine' = [lastLine EXCEPT ![cw] = NoLine]
+                       /\ pos' = pos + 1 /\ UNCHANGED <<cfgid, cur, cw, calls, log>>
+
 \* the context the decoder starts from
 StartCtx(carry, h, ll) == IF ~carry THEN <<>>
                           ELSE IF h.has THEN h.c
@@ -79,7 +86,7 @@ LineDecode == /\ cur # "-" /\ pos <= NLines /\ KindOf(cfgid, cur, pos) = 0
 \* and no confidence threshold, decode_line has already re-primed last_h from last_line when the decoder raises; the
 \* exception is swallowed either way and the context the next line starts from is the same.
 Broken(p, l) == (PageNo(p) + l) % 2 = 1
-ThresholdSet(c) == \E p \in Pages, l \in 1..NLines : KindOf(c, p, l) = 1
+ThresholdSet(c) == \E p \in Pages, l \in 1..NLines : KindOf(c, p, l) \in {1, 3}
 FailH(c, p, l, h, ll) == IF Broken(p, l) /\ CarryOf(c) /\ ~ThresholdSet(c) /\ ~h.has /\ ll # NoLine
                          THEN [has |-> TRUE, c |-> <<ll>>] ELSE h
 LineFail == /\ cur # "-" /\ pos <= NLines /\ KindOf(cfgid, cur, pos) = 2
@@ -89,7 +96,7 @@ LineFail == /\ cur # "-" /\ pos <= NLines /\ KindOf(cfgid, cur, pos) = 2
 PageEnd == /\ cur # "-" /\ pos > NLines
            /\ cur' = "-" /\ pos' = 0 /\ UNCHANGED <<cfgid, lastH, lastLine, cw, calls, log>>
 
-Next == (\E w \in Workers, p \in Pages : PageStart(w, p)) \/ LineConfident \/ LineDecode \/ LineFail \/ PageEnd
+Next == (\E w \in Workers, p \in Pages : PageStart(w, p)) \/ LineConfident \/ LineConfidentNoText \/ LineDecode \/ LineFail \/ PageEnd
 Spec == Init /\ [][Next]_vars
 -----------------------------------------------------------------------------
 (* what a fresh instance does with page p alone: state after the first n lines *)
@@ -99,6 +106,7 @@ Alone(c, p, n) ==
    ELSE LET s == Alone(c, p, n - 1)
             k == KindOf(c, p, n)
         IN IF k = 1 THEN [h |-> NoH, ll |-> <<p, n>>]
+           ELSE IF k = 3 THEN [h |-> NoH, ll |-> NoLine]
            ELSE IF k = 2 THEN [h |-> FailH(c, p, n, s.h, s.ll), ll |-> s.ll]
            ELSE [h |-> IF CarryOf(c) THEN [has |-> TRUE, c |-> Append(StartCtx(TRUE, s.h, s.ll), <<p, n>>)] ELSE s.h,
                  ll |-> <<p, n>>]
